@@ -290,9 +290,32 @@ def case_elements(mon, e0, e1, i0, arg0, lon0):
     err = max(sp.sep(p0, p2), sp.sep(q0, q2))
     mon.stat("elements_there_and_back_deg(1<=i<=90)",
              err if 1.0 <= i0 <= 90.0 else 0.0, case)
-    mon.check("elements.there-and-back", err <= 1e-6,
+    # the elements go through the node, which is conditioned like 1/sin(i):
+    # within 1e-5 deg of i = 0 or 180 the rounding of one atan2 argument
+    # (1 ulp of a quantity of order 1) turns the node by ulp/sin(i)
+    smin = min(abs(math.sin(math.radians(v))) for v in (i1(), i2()))
+    tol = 1e-6 + 8 * 1.27e-14 / max(smin, 1e-12) if smin > 0 else 1e-6
+    mon.check("elements.there-and-back", err <= tol,
               dict(case, there=[i1(), a1(), l1()], back=[i2(), a2(), l2()],
                    error_deg=err), key_elements(i0, e0, e1))
+    # the orbit's pole and perihelion direction are vectors of the sky: they
+    # move as the library's own ecliptical precession moves any direction
+    try:
+        out = []
+        for v in (p0, q0):
+            lo, la = sp.lonlat(v)
+            a, b = C.precession_ecliptical(Epoch(e0), Epoch(e1), Angle(lo),
+                                           Angle(la))
+            out.append(sp.vec(a(), b()))
+    except Exception as ex:
+        mon.dev("elements.move-with-precession", dict(case, raised=repr(ex)))
+        return
+    p1, q1 = elem_dirs(i1(), a1(), l1())
+    err2 = max(sp.sep(p1, out[0]), sp.sep(q1, out[1]))
+    mon.stat("elements_vs_precession_deg", err2, case)
+    mon.check("elements.move-with-precession", err2 <= tol,
+              dict(case, new_elements=[i1(), a1(), l1()], error_deg=err2),
+              key_elements(i0, e0, e1))
 
 
 def key_elements(i0, e0, e1):
@@ -313,7 +336,7 @@ def directed(mon):
     p = [jd_of_year(1950.0), J2000, 41.054063, 49.227750]
     mon.begin("newcomb", p)
     case_newcomb(mon, *p)
-    for i0 in (0.5, 1e-3, 120.0, 179.0, 47.122, 0.0):
+    for i0 in (0.5, 1e-3, 120.0, 179.0, 47.122, 0.0, 180.0, 90.0):
         p = [jd_of_year(1744.0), J2000, i0, 151.4486, 45.7481]
         mon.begin("elements", p)
         case_elements(mon, *p)
@@ -356,7 +379,11 @@ def run(mon, spec):
             e0, e1 = gen_epochs(rng, 5.0)
             i0 = rng.choice((rng.uniform(0, 180), rng.uniform(0, 1),
                              rng.uniform(1, 90), rng.uniform(90, 180),
-                             rng.uniform(1, 30)))
+                             rng.uniform(1, 30),
+                             rng.choice((0.0, 90.0, 180.0))
+                             + rng.choice((0.0, 0.0, 1e-12, 1e-9, 1e-6))
+                             * rng.choice((-1, 1))))
+            i0 = min(180.0, max(0.0, i0))
             p = ["elements", [e0, e1, i0, rng.uniform(0, 360),
                               rng.uniform(0, 360)]]
         mon.begin(p[0], p[1])
